@@ -213,8 +213,16 @@ class ConvexPolygon(Polygon):
         angles = np.mod(angles, 2 * np.pi)
         num_verts = len(self.vertices)
 
+        # The angles are measured counterclockwise about +z. The vertices are
+        # ordered counterclockwise about the normal, so a polygon whose normal
+        # points to -z (vertices passed in clockwise) is looked at from the other
+        # side: opposite normal, reversed order.
+        normal, vertices = self.normal, self.vertices
+        if normal[2] < 0:
+            normal, vertices = -normal, vertices[::-1]
+
         # Rearrange the verts so that we start with the lowest angle
-        verts, _ = _align_points_by_normal(self.normal, self.vertices - origin)
+        verts, _ = _align_points_by_normal(normal, vertices - origin)
         angles_to_vertices = np.arctan2(verts[:, 1], verts[:, 0])
         np.mod(angles_to_vertices, 2 * np.pi, out=angles_to_vertices)
 
